@@ -63,6 +63,47 @@ impl<'a, const PT: u8, const MIN: usize> TryFrom<&'a Packet<'a>> for Custom<'a, 
     }
 }
 
+/// A second third-party family that overrides the trait's *defaulted* constant `MAX_COUNT` as well (a packet type
+/// whose count field only ever takes values up to `MC`): `MAX_COUNT` is a maximum, not a bit mask, and the public
+/// helpers must treat a legal count of such a type like any other.
+#[derive(Debug, PartialEq, Eq, Clone)]
+pub struct Odd<'a, const MC: u8> {
+    data: &'a [u8],
+}
+pub const ODD_PT: u8 = 208;
+impl<'a, const MC: u8> RtcpPacket for Odd<'a, MC> {
+    const MAX_COUNT: u8 = MC;
+    const MIN_PACKET_LEN: usize = 4;
+    const PACKET_TYPE: u8 = ODD_PT;
+}
+impl<'a, const MC: u8> RtcpPacketParser<'a> for Odd<'a, MC> {
+    fn parse(data: &'a [u8]) -> Result<Self, RtcpParseError> {
+        parser::check_packet::<Self>(data)?;
+        Ok(Self { data })
+    }
+    fn header_data(&self) -> [u8; 4] {
+        self.data[..4].try_into().unwrap()
+    }
+}
+/// (header image written by the public helper into `buf`, returned size, count read back through the parser)
+pub fn odd_header(mc: u8, padding: u8, count: u8, buf: &mut [u8]) -> Option<(usize, Result<u8, RtcpParseError>)> {
+    fn go<const MC: u8>(padding: u8, count: u8, buf: &mut [u8]) -> (usize, Result<u8, RtcpParseError>) {
+        let n = writer::write_header_unchecked::<Odd<MC>>(padding, count, buf);
+        if padding > 0 {
+            let l = buf.len();
+            writer::write_padding_unchecked(padding, &mut buf[l - padding as usize..]);
+        }
+        (n, Odd::<MC>::parse(buf).map(|p| p.count()))
+    }
+    Some(match mc {
+        4 => go::<4>(padding, count, buf),
+        10 => go::<10>(padding, count, buf),
+        16 => go::<16>(padding, count, buf),
+        30 => go::<30>(padding, count, buf),
+        _ => return None,
+    })
+}
+
 #[derive(Debug)]
 pub struct CustomBuilder<'a, const PT: u8, const MIN: usize> {
     pub count: u8,
